@@ -277,7 +277,7 @@ func Exec(fs FS, op Op, d *Dict, h *Handles) (res Res) {
 			}
 			part := append([]byte{}, buf[off:end]...)
 			var n int
-			n, werr = w.Write(part)
+			n, werr = WriteVia(w, part, off/chunk+chunk)
 			if werr == nil && n != len(part) {
 				werr = io.ErrShortWrite
 			}
@@ -421,6 +421,24 @@ func CheckListings(snaps []ListingSnapshot) error {
 		}
 	}
 	return nil
+}
+
+// plainReader hides every optional interface of a reader (WriteTo ...), so that io.Copy takes the destination's
+// ReadFrom if it has one, or its own buffer loop
+type plainReader struct{ io.Reader }
+
+// WriteVia writes part through one of the ways a caller may legitimately use an io.Writer handle: Write itself,
+// io.WriteString (the handle's own WriteString if it has one) or io.Copy from a plain reader (the handle's own
+// ReadFrom if it has one).  All three must append the same bytes at the same place; sel picks one.
+func WriteVia(w io.Writer, part []byte, sel int) (int, error) {
+	switch sel % 3 {
+	case 1:
+		return io.WriteString(w, string(part))
+	case 2:
+		n, err := io.Copy(w, plainReader{bytes.NewReader(part)})
+		return int(n), err
+	}
+	return w.Write(part)
 }
 
 // Scribble overwrites a buffer in place.
